@@ -191,7 +191,8 @@ impl Engine {
                 let c: Vec<usize> = self.open_packets().into_iter().filter(|i| self.w.st.packets[*i].state == PState::InFlight).collect();
                 if !c.is_empty() {
                     let id = c[*pkt as usize % c.len()];
-                    if self.w.relay_recv(id, !*ok) && !*ok {
+                    let ok = *ok && !self.m.doomed.contains(&id);
+                    if self.w.relay_recv(id, !ok) && !ok {
                         self.stats.fault("F2_error_ack");
                     }
                 }
@@ -209,8 +210,9 @@ impl Engine {
                 let c: Vec<usize> = self.open_packets().into_iter().filter(|i| self.w.st.packets[*i].state == PState::InFlight).collect();
                 if !c.is_empty() {
                     let id = c[*pkt as usize % c.len()];
-                    if self.w.relay_recv(id, !*ok) {
-                        if !*ok {
+                    let ok = *ok && !self.m.doomed.contains(&id);
+                    if self.w.relay_recv(id, !ok) {
+                        if !ok {
                             self.stats.fault("F2_error_ack");
                         }
                         if let Some(r) = self.w.relay_ack(id, id % 2 == 0) {
@@ -576,7 +578,10 @@ impl Engine {
         self.check_requests_of(&sender, "C05", "requests_accumulate");
     }
 
-    /// UnstakeRequests(user) must equal the model's open requests of that user.
+    /// Two comparisons: (i) the UnstakeRequests(user) query against the primary request records in raw
+    /// storage (C17: the query / index returns exactly the stored open requests); (ii) the stored
+    /// records against the reference model (the caller's property: how unstakes and withdrawals
+    /// maintain the requests).
     pub fn check_requests_of(&mut self, user: &str, prop: &'static str, clause: &'static str) {
         let mut expect: Vec<(u64, u128)> = vec![];
         for (id, b) in &self.m.batches {
@@ -584,19 +589,35 @@ impl Engine {
                 expect.push((*id, *a));
             }
         }
+        let pk = crate::eng_admin::ns_key("unstake_requests");
+        let mut stored: Vec<(u64, u128)> = self
+            .w
+            .st
+            .staking
+            .map
+            .iter()
+            .filter(|(k, _)| k.starts_with(&pk))
+            .filter_map(|(_, v)| serde_json::from_slice::<Value>(v).ok())
+            .filter(|j| j["user"].as_str() == Some(user))
+            .map(|j| (j["batch_id"].as_u64().unwrap_or(0), u(&j["amount"])))
+            .collect();
+        stored.sort();
         let got = self.q(json!({"unstake_requests": {"user": user}}));
         let mut g: Vec<(u64, u128)> = match &got {
             Some(Value::Array(a)) => a.iter().map(|r| (r["batch_id"].as_u64().unwrap_or(0), u(&r["amount"]))).collect(),
             _ => vec![(u64::MAX, 0)],
         };
         g.sort();
-        if let Some(Value::Array(a)) = &got {
-            if a.iter().any(|r| r["user"].as_str() != Some(user)) {
-                self.v(prop, clause, format!("UnstakeRequests({}) returned another user's request", user));
-            }
+        if stored.len() > 30 {
+            self.stats.probe("user_with_more_than_30_open_requests");
         }
-        if g != expect {
-            self.v(prop, clause, format!("UnstakeRequests({}) = {:?} but open requests are {:?}", user, g, expect));
+        let foreign = matches!(&got, Some(Value::Array(a)) if a.iter().any(|r| r["user"].as_str() != Some(user)));
+        if g != stored || foreign {
+            self.v("C17", "unstake_requests_by_user", format!("UnstakeRequests({}) = {:?} but the stored open requests of that user are {:?}", user, g, stored));
+        }
+        if stored != expect {
+            let (p, c) = if prop == "C17" { ("C05", "requests_match_history") } else { (prop, clause) };
+            self.v(p, c, format!("stored open requests of {} are {:?} but its unstakes and withdrawals amount to {:?}", user, stored, expect));
         }
     }
 
@@ -692,7 +713,7 @@ impl Engine {
         let entitled = !self.m.halted && mb.as_ref().map(|b| b.status == 2).unwrap_or(false) && own.is_some();
         let res = self.exec(&sender, &[], &json!({"withdraw": {"batch_id": id}}), Origin::Other);
         if !res.ok {
-            if entitled && !res.env_fault && self.m.swept == 0 && !res.panicked {
+            if entitled && !res.env_fault && self.m.swept == 0 && !self.m.reckless && !res.panicked {
                 if res.err.contains("insufficient funds") {
                     self.v("C02", "entitled_withdraw_paid_in_full", format!("Withdraw of batch {} by {} failed for lack of funds: {}", id, sender, res.err));
                 } else {
@@ -774,7 +795,7 @@ impl Engine {
 
     fn check_recover_result(&mut self, res: &TxResult, sel: &[Packet], target: &str, should_be_possible: bool) {
         if !res.ok {
-            if should_be_possible && !res.env_fault && res.err.contains("insufficient funds") && self.m.swept == 0 {
+            if should_be_possible && !res.env_fault && res.err.contains("insufficient funds") && self.m.swept == 0 && !self.m.reckless {
                 self.v("C02", "recovery_paid_in_full", format!("recovery of {} refundable transfers failed for lack of funds: {}", sel.len(), res.err));
             }
             if res.env_fault {
@@ -814,7 +835,9 @@ impl Engine {
         let pool: Vec<Packet> = if honest {
             self.w.st.packets.iter().filter(|p| p.sender == s && p.callback.is_some() && p.state == PState::Refunded && !self.m.recovered.contains(&p.id) && p.receiver == target).cloned().collect()
         } else {
-            self.w.st.packets.iter().filter(|p| p.sender == s && p.callback.is_some() && !self.m.recovered.contains(&p.id) && (p.state != PState::AckedOk || self.m.lost_cb.contains(&p.id))).cloned().collect()
+            // reckless: also transfers still in flight - but not ones already received on the native chain
+            // (re-sending those duplicates the stake for good, which no property survives)
+            self.w.st.packets.iter().filter(|p| p.sender == s && p.callback.is_some() && !self.m.recovered.contains(&p.id) && matches!(p.state, PState::InFlight | PState::RecvErr | PState::Refunded) && !self.m.lost_cb.contains(&p.id)).cloned().collect()
         };
         let mut chosen: Vec<Packet> = vec![];
         let mut seqs: Vec<u64> = vec![];
@@ -852,10 +875,15 @@ impl Engine {
             return;
         }
         if !honest && res.ok {
-            // a reckless selection (in-flight packets) voids every conservation statement; only the
-            // mechanical clauses below are checked and the run ends here (DESIGN §12.3)
+            // a reckless selection (in-flight packets) voids the solvency statements (C02, C03, C07 ledgers)
+            // for the rest of the run; the re-sent originals are doomed to fail so that C01 stays decidable
             self.m.reckless = true;
-            self.end_run = true;
+            for p in &distinct {
+                if matches!(p.state, PState::InFlight | PState::RecvErr) {
+                    self.m.doomed.insert(p.id);
+                }
+            }
+            self.stats.probe("reckless_forced_recovery");
         }
         let possible = !nonexistent && !distinct.is_empty() && same_receiver && !mixed;
         if res.ok && !possible {
@@ -879,7 +907,7 @@ impl Engine {
             let new_seq: Vec<u64> = sent.iter().map(|p| p.seq).collect();
             for p in &distinct {
                 if left.contains(&p.seq) && !new_seq.contains(&p.seq) {
-                    self.v("C07", "recover_removes_what_it_resends", format!("packet seq {} was re-sent by the forced recovery but is still recorded", p.seq));
+                    self.vo("C07", "recover_removes_what_it_resends", format!("packet seq {} was re-sent by the forced recovery but is still recorded", p.seq));
                 }
             }
             for p in &distinct {
